@@ -383,11 +383,19 @@ def rejections(ctx):
     # a region with a generous comparison tolerance (the library's own tests use 0.1): points
     # up to that tolerance outside - possibly more than a cell - are points of the region and
     # map to the outermost cell on that side
-    tf = float(gen.pick(rng, [1e-3, 0.02, 0.1]))
+    tf = float(gen.pick(rng, [1e-3, 0.02, 0.1, 0.1]))
+    # one axis with many cells whose edge is the shortest of the region: the tolerance
+    # (a fraction of the shortest edge) then spans several of its cells
+    axm = int(rng.integers(0, nd))
+    nw, cw = n.copy(), spec.cell.copy()
+    nw[axm] = int(rng.integers(15, 60))
+    others = [spec.edges[j] for j in range(nd) if j != axm]
+    cw[axm] = (0.8 * min(others) if others else spec.edges[axm]) / nw[axm]
+    spec, n = gen.MeshSpec(spec.pmin, cw, nw, spec.dims, spec.units, spec.flip), nw
     wide = df.Mesh(region=spec.region(tolerance_factor=tf), n=[int(k) for k in n])
     reach = tf * float(np.min(spec.edges))
     for _ in range(4):
-        ax = int(rng.integers(0, nd))
+        ax = axm if rng.random() < 0.7 else int(rng.integers(0, nd))
         p = spec.pmin + rng.uniform(0.05, 0.95, nd) * spec.edges
         up = bool(rng.random() < 0.5)
         d = rng.uniform(0.05, 0.9) * reach
